@@ -93,6 +93,7 @@ variable (s : St) (i : Nat) (p : Phase) (c : Call) (n : ConnState)
 @[simp] theorem setPhase_writeFails : (setPhase s i p).writeFails = s.writeFails := rfl
 @[simp] theorem setPhase_writes : (setPhase s i p).writes = s.writes := rfl
 @[simp] theorem setPhase_callbacks : (setPhase s i p).callbacks = s.callbacks := rfl
+@[simp] theorem setPhase_inQ2 : (setPhase s i p).inQ2 = s.inQ2 := rfl
 
 @[simp] theorem push_calls : (push s c).calls = s.calls ++ [c] := rfl
 @[simp] theorem push_inited : (push s c).inited = s.inited := rfl
@@ -110,6 +111,7 @@ variable (s : St) (i : Nat) (p : Phase) (c : Call) (n : ConnState)
 @[simp] theorem push_writeFails : (push s c).writeFails = s.writeFails := rfl
 @[simp] theorem push_writes : (push s c).writes = s.writes := rfl
 @[simp] theorem push_callbacks : (push s c).callbacks = s.callbacks := rfl
+@[simp] theorem push_inQ2 : (push s c).inQ2 = s.inQ2 := rfl
 
 /-- the new connection state computed by `connStateUpdate` -/
 def nextState (s : St) (n : ConnState) : ConnState := if s.state = .disconnected then .disconnected else n
@@ -128,6 +130,7 @@ def nextState (s : St) (n : ConnState) : ConnState := if s.state = .disconnected
 @[simp] theorem csu_transportOpen : (connStateUpdate s n).transportOpen = s.transportOpen := by unfold connStateUpdate; simp only []; (repeat' split) <;> rfl
 @[simp] theorem csu_writeFails : (connStateUpdate s n).writeFails = s.writeFails := by unfold connStateUpdate; simp only []; (repeat' split) <;> rfl
 @[simp] theorem csu_writes : (connStateUpdate s n).writes = s.writes := by unfold connStateUpdate; simp only []; (repeat' split) <;> rfl
+@[simp] theorem csu_inQ2 : (connStateUpdate s n).inQ2 = s.inQ2 := by unfold connStateUpdate; simp only []; (repeat' split) <;> rfl
 @[simp] theorem csu_state : (connStateUpdate s n).state = nextState s n := by
   unfold connStateUpdate nextState; simp only []; (repeat' split) <;> rfl
 theorem csu_callbacks : (connStateUpdate s n).callbacks =
@@ -185,6 +188,7 @@ variable (s : St) (e : ErrClass)
 @[simp] theorem endNow_transportOpen : (endNow s e).transportOpen = false := by unfold endNow; simp only []; split <;> simp
 @[simp] theorem endNow_writeFails : (endNow s e).writeFails = s.writeFails := by unfold endNow; simp only []; split <;> simp
 @[simp] theorem endNow_writes : (endNow s e).writes = s.writes := by unfold endNow; simp only []; split <;> simp
+@[simp] theorem endNow_inQ2 : (endNow s e).inQ2 = s.inQ2 := by unfold endNow; simp only []; split <;> simp
 @[simp] theorem endNow_err : (endNow s e).err = endErr s e := by
   unfold endNow endErr; simp only []; split <;> simp
 @[simp] theorem endNow_state : (endNow s e).state = nextState s .closed := by
@@ -223,6 +227,8 @@ def target (s : St) : In → Option Nat
   | .suback id _ => mapGet s.subAck id
   | .unsuback id => mapGet s.unsubAck id
   | .pingresp => s.pingResp
+  | .publish _ _ => none          -- application messages are not addressed to a waiter
+  | .pubrel _ => none
   | .malformed => none
 
 /-- lookup-and-delete: the signaller entry is removed when the packet is processed -/
@@ -243,6 +249,8 @@ def expect : In → Phase
   | .suback _ _ => .waitSubAck
   | .unsuback _ => .waitUnsubAck
   | .pingresp => .waitPingResp
+  | .publish _ _ => .returned .notConnected
+  | .pubrel _ => .returned .notConnected
   | .malformed => .returned .notConnected
 
 section delTargetFields
@@ -258,7 +266,105 @@ variable (s : St) (p : In)
 @[simp] theorem delTarget_writeFails : (delTarget s p).writeFails = s.writeFails := by cases p <;> rfl
 @[simp] theorem delTarget_writes : (delTarget s p).writes = s.writes := by cases p <;> rfl
 @[simp] theorem delTarget_callbacks : (delTarget s p).callbacks = s.callbacks := by cases p <;> rfl
+@[simp] theorem delTarget_inQ2 : (delTarget s p).inQ2 = s.inQ2 := by cases p <;> rfl
 end delTargetFields
+
+/-! ### inbound application messages (serve.go: PUBLISH / PUBREL are acknowledged by the reader itself) -/
+
+/-- the seven acknowledgement kinds: packets that are addressed to a waiting call -/
+def isAck : In → Bool
+  | .malformed | .publish _ _ | .pubrel _ => false
+  | _ => true
+
+/-- inbound application messages: PUBLISH and PUBREL -/
+def isApp : In → Bool
+  | .publish _ _ | .pubrel _ => true
+  | _ => false
+
+/-- does the reader have to write an acknowledgement for this packet?
+    PUBLISH with QoS ≠ 0; PUBREL of an id that is remembered in `inQ2` (serve.go `subBuffer`) -/
+def needsAck (s : St) : In → Bool
+  | .publish q _ => q != 0
+  | .pubrel id => s.inQ2.contains id
+  | _ => false
+
+/-- the acknowledgement write of the reader fails: this ends the reader (and so the connection) -/
+def ackFails (s : St) (p : In) : Bool := needsAck s p && !canWrite s
+
+/-- the acknowledgement that the MQTT flow prescribes (for a packet with `needsAck`) -/
+def appWrites : In → List W
+  | .publish q id => if q = 1 then [.puback id] else [.pubrec id]
+  | .pubrel id => [.pubcomp id]
+  | _ => []
+
+/-- the remembered inbound QoS 2 ids after the packet has been acknowledged -/
+def appQ2 (s : St) : In → List Nat
+  | .publish q id => if q = 1 then s.inQ2 else id :: s.inQ2.filter (· ≠ id)
+  | .pubrel id => s.inQ2.filter (· ≠ id)
+  | _ => s.inQ2
+
+/-- the state after the reader has acknowledged an application message -/
+def appAcked (s : St) (p : In) : St := { s with writes := s.writes ++ appWrites p, inQ2 := appQ2 s p }
+
+/-- a PUBREL forgets the id before its PUBCOMP is written (serve.go: `delete(subBuffer, id)` first) -/
+def appDropped (s : St) : In → St
+  | .pubrel id => { s with inQ2 := s.inQ2.filter (· ≠ id) }
+  | _ => s
+
+theorem needsAck_isApp {s : St} {p : In} (h : needsAck s p = true) : isApp p = true := by
+  cases p <;> first | rfl | (simp [needsAck] at h)
+
+theorem isAck_not_isApp {p : In} (h : isAck p = true) : isApp p = false := by
+  cases p <;> first | rfl | (simp [isAck] at h)
+
+theorem isAck_needsAck (s : St) {p : In} (h : isAck p = true) : needsAck s p = false := by
+  cases p <;> first | rfl | (simp [isAck] at h)
+
+theorem target_of_isApp (s : St) {p : In} (h : isApp p = true) : target s p = none := by
+  cases p <;> first | rfl | (simp [isApp] at h)
+
+theorem needsAck_iff (s : St) (p : In) : needsAck s p = true ↔
+    (∃ q id, p = .publish q id ∧ q ≠ 0) ∨ (∃ id, p = .pubrel id ∧ id ∈ s.inQ2) := by
+  cases p <;> simp [needsAck]
+
+section appFields
+variable (s : St) (p : In)
+@[simp] theorem appAcked_calls : (appAcked s p).calls = s.calls := rfl
+@[simp] theorem appAcked_inited : (appAcked s p).inited = s.inited := rfl
+@[simp] theorem appAcked_pubAck : (appAcked s p).pubAck = s.pubAck := rfl
+@[simp] theorem appAcked_pubRec : (appAcked s p).pubRec = s.pubRec := rfl
+@[simp] theorem appAcked_pubComp : (appAcked s p).pubComp = s.pubComp := rfl
+@[simp] theorem appAcked_subAck : (appAcked s p).subAck = s.subAck := rfl
+@[simp] theorem appAcked_unsubAck : (appAcked s p).unsubAck = s.unsubAck := rfl
+@[simp] theorem appAcked_connAck : (appAcked s p).connAck = s.connAck := rfl
+@[simp] theorem appAcked_pingResp : (appAcked s p).pingResp = s.pingResp := rfl
+@[simp] theorem appAcked_state : (appAcked s p).state = s.state := rfl
+@[simp] theorem appAcked_err : (appAcked s p).err = s.err := rfl
+@[simp] theorem appAcked_doneClosed : (appAcked s p).doneClosed = s.doneClosed := rfl
+@[simp] theorem appAcked_transportOpen : (appAcked s p).transportOpen = s.transportOpen := rfl
+@[simp] theorem appAcked_writeFails : (appAcked s p).writeFails = s.writeFails := rfl
+@[simp] theorem appAcked_callbacks : (appAcked s p).callbacks = s.callbacks := rfl
+@[simp] theorem appAcked_writes : (appAcked s p).writes = s.writes ++ appWrites p := rfl
+@[simp] theorem appAcked_inQ2 : (appAcked s p).inQ2 = appQ2 s p := rfl
+
+@[simp] theorem appDropped_calls : (appDropped s p).calls = s.calls := by cases p <;> rfl
+@[simp] theorem appDropped_inited : (appDropped s p).inited = s.inited := by cases p <;> rfl
+@[simp] theorem appDropped_pubAck : (appDropped s p).pubAck = s.pubAck := by cases p <;> rfl
+@[simp] theorem appDropped_pubRec : (appDropped s p).pubRec = s.pubRec := by cases p <;> rfl
+@[simp] theorem appDropped_pubComp : (appDropped s p).pubComp = s.pubComp := by cases p <;> rfl
+@[simp] theorem appDropped_subAck : (appDropped s p).subAck = s.subAck := by cases p <;> rfl
+@[simp] theorem appDropped_unsubAck : (appDropped s p).unsubAck = s.unsubAck := by cases p <;> rfl
+@[simp] theorem appDropped_connAck : (appDropped s p).connAck = s.connAck := by cases p <;> rfl
+@[simp] theorem appDropped_pingResp : (appDropped s p).pingResp = s.pingResp := by cases p <;> rfl
+@[simp] theorem appDropped_state : (appDropped s p).state = s.state := by cases p <;> rfl
+@[simp] theorem appDropped_err : (appDropped s p).err = s.err := by cases p <;> rfl
+@[simp] theorem appDropped_doneClosed : (appDropped s p).doneClosed = s.doneClosed := by cases p <;> rfl
+@[simp] theorem appDropped_transportOpen : (appDropped s p).transportOpen = s.transportOpen := by cases p <;> rfl
+@[simp] theorem appDropped_writeFails : (appDropped s p).writeFails = s.writeFails := by cases p <;> rfl
+@[simp] theorem appDropped_callbacks : (appDropped s p).callbacks = s.callbacks := by cases p <;> rfl
+@[simp] theorem appDropped_writes : (appDropped s p).writes = s.writes := by cases p <;> rfl
+@[simp] theorem appDropped_canWrite : canWrite (appDropped s p) = canWrite s := by simp [canWrite]
+end appFields
 
 /-- registration of the waiter of a new call (index `s.calls.length`) -/
 def reg (s : St) (k : Kind) (id : Nat) : St :=
@@ -301,6 +407,7 @@ variable (s : St) (k : Kind) (id : Nat)
 @[simp] theorem reg_writeFails : (reg s k id).writeFails = s.writeFails := by cases k <;> rfl
 @[simp] theorem reg_writes : (reg s k id).writes = s.writes := by cases k <;> rfl
 @[simp] theorem reg_callbacks : (reg s k id).callbacks = s.callbacks := by cases k <;> rfl
+@[simp] theorem reg_inQ2 : (reg s k id).inQ2 = s.inQ2 := by cases k <;> rfl
 @[simp] theorem reg_canWrite : canWrite (reg s k id) = canWrite s := by simp [canWrite]
 end regFields
 
@@ -334,8 +441,15 @@ inductive Step : St → Ev → St → Prop
   | inbIgnored (s : St) (p : In) : (s.doneClosed = true ∨ s.inited = false) → Step s (.inb p) s
   | malformed (s : St) : s.inited = true → s.doneClosed = false →
       Step s (.inb .malformed) (endNow s .invalidPacket)
-  | noTarget (s : St) (p : In) : s.inited = true → s.doneClosed = false → p ≠ .malformed →
+  | noTarget (s : St) (p : In) : s.inited = true → s.doneClosed = false → isAck p = true →
       target s p = none → Step s (.inb p) s
+  -- inbound application messages: nothing to acknowledge / acknowledged / the acknowledgement write fails
+  | appNoop (s : St) (p : In) : s.inited = true → s.doneClosed = false → isApp p = true → needsAck s p = false →
+      Step s (.inb p) s
+  | appOk (s : St) (p : In) : s.inited = true → s.doneClosed = false → needsAck s p = true → canWrite s = true →
+      Step s (.inb p) (appAcked s p)
+  | appFail (s : St) (p : In) : s.inited = true → s.doneClosed = false → needsAck s p = true → canWrite s = false →
+      Step s (.inb p) (endNow (appDropped s p) .other)
   | stale (s : St) (p : In) (i : Nat) : s.inited = true → s.doneClosed = false → target s p = some i →
       (∀ c, s.calls[i]? = some c → c.phase ≠ expect p) → Step s (.inb p) (delTarget s p)
   | connackRefused (s : St) (sp : Bool) (code i : Nat) (c : Call) :
@@ -516,7 +630,19 @@ theorem inbound_live (s : St) (p : In) (hi : s.inited = true) (hd : s.doneClosed
   | .pingresp =>
     match s.pingResp with
     | some i => wake s i .waitPingResp fun _ s => setPhase s i (.returned .ok)
-    | none => s := by
+    | none => s
+  | .publish qos id =>
+    if qos = 0 then s
+    else if qos = 1 then
+      if canWrite s then { s with writes := s.writes ++ [.puback id] } else readerEnds s .other
+    else
+      if canWrite s then { s with writes := s.writes ++ [.pubrec id], inQ2 := id :: s.inQ2.filter (· ≠ id) }
+      else readerEnds s .other
+  | .pubrel id =>
+    if s.inQ2.contains id then
+      let s := { s with inQ2 := s.inQ2.filter (· ≠ id) }
+      if canWrite s then { s with writes := s.writes ++ [.pubcomp id] } else readerEnds s .other
+    else s := by
   unfold inbound
   rw [if_neg (by simp [hi, hd])]
   cases p <;> rfl
@@ -548,7 +674,7 @@ theorem inbound_rel (s : St) (p : In) : Step s (.inb p) (inbound s p) := by
     | connack sp code =>
       dsimp only
       cases hm : s.connAck with
-      | none => exact Step.noTarget s _ hi hd (by simp) hm
+      | none => exact Step.noTarget s _ hi hd rfl hm
       | some i =>
         dsimp only
         rcases key i .waitConnAck with ⟨c, hc, hp⟩ | hst
@@ -563,7 +689,7 @@ theorem inbound_rel (s : St) (p : In) : Step s (.inb p) (inbound s p) := by
     | puback id =>
       dsimp only
       cases hm : mapGet s.pubAck id with
-      | none => exact Step.noTarget s _ hi hd (by simp) hm
+      | none => exact Step.noTarget s _ hi hd rfl hm
       | some i =>
         dsimp only
         rcases key i .waitPubAck with ⟨c, hc, hp⟩ | hst
@@ -574,7 +700,7 @@ theorem inbound_rel (s : St) (p : In) : Step s (.inb p) (inbound s p) := by
     | pubrec id =>
       dsimp only
       cases hm : mapGet s.pubRec id with
-      | none => exact Step.noTarget s _ hi hd (by simp) hm
+      | none => exact Step.noTarget s _ hi hd rfl hm
       | some i =>
         dsimp only
         rcases key i .waitPubRec with ⟨c, hc, hp⟩ | hst
@@ -593,7 +719,7 @@ theorem inbound_rel (s : St) (p : In) : Step s (.inb p) (inbound s p) := by
     | pubcomp id =>
       dsimp only
       cases hm : mapGet s.pubComp id with
-      | none => exact Step.noTarget s _ hi hd (by simp) hm
+      | none => exact Step.noTarget s _ hi hd rfl hm
       | some i =>
         dsimp only
         rcases key i .waitPubComp with ⟨c, hc, hp⟩ | hst
@@ -604,7 +730,7 @@ theorem inbound_rel (s : St) (p : In) : Step s (.inb p) (inbound s p) := by
     | suback id codes =>
       dsimp only
       cases hm : mapGet s.subAck id with
-      | none => exact Step.noTarget s _ hi hd (by simp) hm
+      | none => exact Step.noTarget s _ hi hd rfl hm
       | some i =>
         dsimp only
         rcases key i .waitSubAck with ⟨c, hc, hp⟩ | hst
@@ -627,7 +753,7 @@ theorem inbound_rel (s : St) (p : In) : Step s (.inb p) (inbound s p) := by
     | unsuback id =>
       dsimp only
       cases hm : mapGet s.unsubAck id with
-      | none => exact Step.noTarget s _ hi hd (by simp) hm
+      | none => exact Step.noTarget s _ hi hd rfl hm
       | some i =>
         dsimp only
         rcases key i .waitUnsubAck with ⟨c, hc, hp⟩ | hst
@@ -638,7 +764,7 @@ theorem inbound_rel (s : St) (p : In) : Step s (.inb p) (inbound s p) := by
     | pingresp =>
       dsimp only
       cases hm : s.pingResp with
-      | none => exact Step.noTarget s _ hi hd (by simp) hm
+      | none => exact Step.noTarget s _ hi hd rfl hm
       | some i =>
         dsimp only
         rcases key i .waitPingResp with ⟨c, hc, hp⟩ | hst
@@ -646,6 +772,36 @@ theorem inbound_rel (s : St) (p : In) : Step s (.inb p) (inbound s p) := by
           exact Step.pingresp s i c hi hd hm hc hp
         · rw [wake_stale hst]
           exact Step.stale s .pingresp i hi hd hm hst
+    | publish q id =>
+      dsimp only
+      by_cases h0 : q = 0
+      · rw [if_pos h0]; exact Step.appNoop s _ hi hd rfl (by simp [needsAck, h0])
+      · rw [if_neg h0]
+        have hn : needsAck s (.publish q id) = true := by simp [needsAck, h0]
+        cases hw : canWrite s
+        · have e : (if q = 1 then (if false = true then { s with writes := s.writes ++ [.puback id] } else readerEnds s .other)
+              else (if false = true then { s with writes := s.writes ++ [.pubrec id], inQ2 := id :: s.inQ2.filter (· ≠ id) }
+                else readerEnds s .other)) = endNow (appDropped s (.publish q id)) .other := by
+            simp [readerEnds_of_not_done _ _ hd, appDropped]
+          rw [e]; exact Step.appFail s _ hi hd hn hw
+        · have e : (if q = 1 then (if true = true then { s with writes := s.writes ++ [.puback id] } else readerEnds s .other)
+              else (if true = true then { s with writes := s.writes ++ [.pubrec id], inQ2 := id :: s.inQ2.filter (· ≠ id) }
+                else readerEnds s .other)) = appAcked s (.publish q id) := by
+            by_cases h1 : q = 1 <;> simp [appAcked, appWrites, appQ2, h1]
+          rw [e]; exact Step.appOk s _ hi hd hn hw
+    | pubrel id =>
+      dsimp only
+      cases hm : s.inQ2.contains id
+      · rw [if_neg (by simp)]; exact Step.appNoop s _ hi hd rfl (by simpa [needsAck] using hm)
+      · rw [if_pos rfl]
+        have hn : needsAck s (.pubrel id) = true := by simpa [needsAck] using hm
+        have hcw : canWrite { s with inQ2 := s.inQ2.filter (· ≠ id) } = canWrite s := rfl
+        rw [hcw]
+        cases hw : canWrite s
+        · rw [if_neg (by simp), readerEnds_of_not_done _ _ (by simpa using hd)]
+          exact Step.appFail s _ hi hd hn hw
+        · rw [if_pos rfl]
+          exact Step.appOk s _ hi hd hn hw
 
 
 /-- `step` presented as the relation `Step` -/
@@ -812,6 +968,8 @@ theorem Sound.onDelTarget {s : St} (hs : Sound s) (p : In) : Sound (delTarget s 
   | unsuback id => exact ⟨hs.kp, hs.pubAck, hs.pubRec, hs.pubComp, hs.subAck, hs.unsubAck.onDel id⟩
   | connack sp code => exact hs
   | pingresp => exact hs
+  | publish q id => exact hs
+  | pubrel id => exact hs
   | malformed => exact hs
 
 theorem MapOK.push_set {cs m} (h : MapOK cs m) (k : Kind) (id : Nat) (p : Phase) :
@@ -867,6 +1025,10 @@ theorem Sound.onStep {s s' : St} {e : Ev} (h : Step s e s') (hs : Sound s) : Sou
   | inbIgnored p h => exact hs
   | malformed hi hd => exact hs.onEndNow _
   | noTarget p hi hd hp ht => exact hs
+  | appNoop p hi hd hp hn => exact hs
+  | appOk p hi hd hn hw => exact hs.congr rfl rfl rfl rfl rfl rfl
+  | appFail p hi hd hn hw =>
+    exact (hs.congr (s' := appDropped s p) (by simp) (by simp) (by simp) (by simp) (by simp) (by simp)).onEndNow _
   | stale p i hi hd ht hst => exact hs.onDelTarget p
   | connackRefused sp code i c hi hd hm hc hp h0 => exact hs.onSetPhase i _ (fun _ _ => trivial)
   | connackOk sp i c hi hd hm hc hp =>
@@ -1044,6 +1206,10 @@ theorem Live.onStep {s s' : St} {e : Ev} (h : Step s e s') (hs : Live s) : Live 
   | inbIgnored p h => exact hs
   | malformed hi hd => exact hs.onEndNow _ hi
   | noTarget p hi hd hp ht => exact hs
+  | appNoop p hi hd hp hn => exact hs
+  | appOk p hi hd hn hw => exact hs.congr rfl rfl rfl rfl
+  | appFail p hi hd hn hw =>
+    exact (hs.congr (s' := appDropped s p) (by simp) (by simp) (by simp) (by simp)).onEndNow _ (by simpa using hi)
   | stale p i hi hd ht hst => exact hs.congr (by simp) (by simp) (by simp) (by simp)
   | connackRefused sp code i c hi hd hm hc hp h0 => exact hs.onSetPhase i _ (Or.inl ⟨_, rfl⟩)
   | connackOk sp i c hi hd hm hc hp =>
@@ -1402,6 +1568,9 @@ theorem RegInv.onStep {b : Bool} {s s' : St} {e : Ev} (h : Step s e s') (hs : Re
     | inbIgnored p h => exact hs.reg
     | malformed hi hd => exact Reg.of_no_blocked (endNow_no_blocked _ _)
     | noTarget p hi hd hp ht => exact hs.reg
+    | appNoop p hi hd hp hn => exact hs.reg
+    | appOk p hi hd hn hw => exact hs.reg.congr rfl rfl rfl rfl rfl rfl rfl rfl
+    | appFail p hi hd hn hw => exact Reg.of_no_blocked (endNow_no_blocked _ _)
     | stale p i hi hd ht hst =>
       refine (hs.reg.onDelTarget ht).toReg ?_
       intro c hc hsl
@@ -1472,6 +1641,9 @@ theorem RegInv.onStep {b : Bool} {s s' : St} {e : Ev} (h : Step s e s') (hs : Re
     | inbIgnored p h => exact hs.uniq
     | malformed hi hd => exact Uniq.of_no_blocked (endNow_no_blocked _ _)
     | noTarget p hi hd hp ht => exact hs.uniq
+    | appNoop p hi hd hp hn => exact hs.uniq
+    | appOk p hi hd hn hw => exact hs.uniq.congr rfl
+    | appFail p hi hd hn hw => exact Uniq.of_no_blocked (endNow_no_blocked _ _)
     | stale p i hi hd ht hst => exact hs.uniq.congr (by simp)
     | connackRefused sp code i c hi hd hm hc hp h0 => exact hs.uniq.mono (BlockedSub.ofSetPhaseRet s i _)
     | connackOk sp i c hi hd hm hc hp =>
@@ -1567,8 +1739,10 @@ inductive ConnStep (s : St) (e : Ev) : Conn → Prop
       ConnStep s e ((conn s).update .active)
   | finish (er : ErrClass) : s.inited = true → s.doneClosed = false →
       (e = .peerClose ∧ er = .eof ∨ e = .localClose ∧ er = .other ∨ e = .inb .malformed ∧ er = .invalidPacket ∨
-        ∃ id i n codes c, e = .inb (.suback id codes) ∧ er = .other ∧ mapGet s.subAck id = some i ∧
-          s.calls[i]? = some c ∧ c.phase = .waitSubAck ∧ c.kind = .sub n ∧ codes.length ≠ n) →
+        (∃ id i n codes c, e = .inb (.suback id codes) ∧ er = .other ∧ mapGet s.subAck id = some i ∧
+          s.calls[i]? = some c ∧ c.phase = .waitSubAck ∧ c.kind = .sub n ∧ codes.length ≠ n) ∨
+        -- the reader could not write the acknowledgement of an inbound PUBLISH / PUBREL
+        ∃ p, e = .inb p ∧ er = .other ∧ ackFails s p = true) →
       ConnStep s e ((conn s).finish er)
 
 theorem conn_congr {s s' : St} (h1 : s'.state = s.state) (h2 : s'.err = s.err) (h3 : s'.callbacks = s.callbacks)
@@ -1598,6 +1772,13 @@ theorem conn_step {s s' : St} {e : Ev} (h : Step s e s') : ConnStep s e (conn s'
   | inbIgnored p h => exact ConnStep.same
   | malformed hi hd => rw [conn_endNow]; exact ConnStep.finish _ hi hd (Or.inr (Or.inr (Or.inl ⟨rfl, rfl⟩)))
   | noTarget p hi hd hp ht => exact ConnStep.same
+  | appNoop p hi hd hp hn => exact ConnStep.same
+  | appOk p hi hd hn hw => exact same rfl rfl rfl rfl
+  | appFail p hi hd hn hw =>
+    rw [conn_endNow]
+    have : conn (appDropped s p) = conn s := conn_congr (by simp) (by simp) (by simp) (by simp)
+    rw [this]
+    exact ConnStep.finish _ hi hd (Or.inr (Or.inr (Or.inr (Or.inr ⟨p, rfl, rfl, by simp [ackFails, hn, hw]⟩))))
   | stale p i hi hd ht hst => exact same (by simp) (by simp) (by simp) (by simp)
   | connackRefused sp code i c hi hd hm hc hp h0 => exact same rfl rfl rfl rfl
   | connackOk sp i c hi hd hm hc hp =>
@@ -1614,7 +1795,7 @@ theorem conn_step {s s' : St} {e : Ev} (h : Step s e s') : ConnStep s e (conn s'
     have : conn (setPhase { s with subAck := mapDel s.subAck id } i (.returned .invalidSubAck)) = conn s :=
       conn_congr rfl rfl rfl rfl
     rw [this]
-    exact ConnStep.finish _ hi hd (Or.inr (Or.inr (Or.inr ⟨id, i, n, codes, c, rfl, rfl, hm, hc, hp, hk, hl⟩)))
+    exact ConnStep.finish _ hi hd (Or.inr (Or.inr (Or.inr (Or.inl ⟨id, i, n, codes, c, rfl, rfl, hm, hc, hp, hk, hl⟩))))
   | subackOdd id i codes c hi hd hm hc hp hk => exact same rfl rfl rfl rfl
   | unsuback id i c hi hd hm hc hp => exact same rfl rfl rfl rfl
   | pingresp i c hi hd hm hc hp => exact same rfl rfl rfl rfl
@@ -1831,6 +2012,10 @@ theorem call_step {s s' : St} {e : Ev} (h : Step s e s') (hs : Sound s) {i : Nat
   | inbIgnored p h => exact ⟨c, hc, .same⟩
   | malformed hi hd => exact ⟨_, endNow_getElem?_some _ hc, .released hi hd (by simp)⟩
   | noTarget p hi hd hp ht => exact ⟨c, hc, .same⟩
+  | appNoop p hi hd hp hn => exact ⟨c, hc, .same⟩
+  | appOk p hi hd hn hw => exact ⟨c, hc, .same⟩
+  | appFail p hi hd hn hw =>
+    exact ⟨_, endNow_getElem?_some (s := appDropped s p) _ (by simpa using hc), .released hi hd (by simp)⟩
   | stale p j hi hd ht hst => exact ⟨c, by simpa using hc, .same⟩
   | connackRefused sp code j c0 hi hd hm hc0 hp h0 =>
     refine atTarget j _ rfl ?_
@@ -1969,6 +2154,9 @@ theorem returned_stable {s s' : St} {e : Ev} (h : Step s e s') {i : Nat} {c : Ca
   | inbIgnored p h => exact hc
   | malformed hi hd => rw [endNow_getElem?_some _ hc, rel]
   | noTarget p hi hd hp ht => exact hc
+  | appNoop p hi hd hp hn => exact hc
+  | appOk p hi hd hn hw => exact hc
+  | appFail p hi hd hn hw => rw [endNow_getElem?_some (s := appDropped s p) _ (by simpa using hc), rel]
   | stale p j hi hd ht hst => simpa using hc
   | connackRefused sp code j c0 hi hd hm hc0 hp h0 => exact atTarget j _ c0 rfl hc0 (ph hp (by simp))
   | connackOk sp j c0 hi hd hm hc0 hp => exact atTarget j _ c0 (by simp) hc0 (ph hp (by simp))
@@ -2054,11 +2242,60 @@ theorem inbound_pingresp (hm : s.pingResp = some i) (hp : c.phase = .waitPingRes
 
 end live
 
-theorem inbound_no_target (s : St) (p : In) (hp : p ≠ .malformed) (ht : target s p = none) : inbound s p = s := by
+theorem inbound_no_target (s : St) (p : In) (hp : p ≠ .malformed) (ht : target s p = none)
+    (hn : needsAck s p = false) : inbound s p = s := by
   unfold inbound
   split
   · rfl
-  · cases p <;> simp_all [target]
+  · cases p <;> simp_all [target, needsAck]
+
+/-- an inbound application message on a live reader, as an equation: nothing to acknowledge; acknowledged;
+    or the acknowledgement write fails and the reader ends with that error -/
+theorem inbound_app_eq (s : St) (p : In) (hi : s.inited = true) (hd : s.doneClosed = false) (hp : isApp p = true) :
+    inbound s p =
+      if needsAck s p = true then
+        (if canWrite s = true then appAcked s p else endNow (appDropped s p) .other)
+      else s := by
+  have h := inbound_rel s p
+  generalize inbound s p = s' at h
+  cases h with
+  | inbIgnored p h => rcases h with h | h <;> simp_all
+  | appNoop p _ _ _ hn => simp [hn]
+  | appOk p _ _ hn hw => simp [hn, hw]
+  | appFail p _ _ hn hw => simp [hn, hw]
+  | noTarget p _ _ hp' _ => rw [isAck_not_isApp hp'] at hp; cases hp
+  | stale p i _ _ ht _ => rw [target_of_isApp s hp] at ht; cases ht
+  | _ => simp [isApp] at hp
+
+/-- a reader that has finished, or was never started, ignores everything -/
+theorem inbound_not_live (s : St) (p : In) (h : s.doneClosed = true ∨ s.inited = false) : inbound s p = s := by
+  unfold inbound; rw [if_pos (by simpa using h)]
+
+theorem appDropped_eq (s : St) (p : In) : appDropped s p = { s with inQ2 := (appDropped s p).inQ2 } := by
+  cases p <;> rfl
+
+/-- the acknowledgement of an inbound PUBLISH (QoS ≠ 0) / remembered PUBREL cannot be written: the reader ends -/
+theorem inbound_ack_fails (s : St) (p : In) (hi : s.inited = true) (hd : s.doneClosed = false)
+    (hf : ackFails s p = true) : inbound s p = endNow (appDropped s p) .other := by
+  simp only [ackFails, Bool.and_eq_true, Bool.not_eq_true'] at hf
+  rw [inbound_app_eq s p hi hd (needsAck_isApp hf.1), if_pos hf.1, if_neg (by simp [hf.2])]
+
+/-- an inbound application message never touches the call records, except that a failing acknowledgement write
+    ends the connection, which releases every blocked call -/
+theorem inbound_app_calls (s : St) (p : In) (hp : isApp p = true) :
+    ((inbound s p).calls = s.calls ∧ (inbound s p).doneClosed = s.doneClosed) ∨
+    (s.inited = true ∧ s.doneClosed = false ∧ ackFails s p = true ∧
+      (inbound s p).calls = s.calls.map release ∧ (inbound s p).doneClosed = true) := by
+  by_cases hl : s.doneClosed = true ∨ s.inited = false
+  · rw [inbound_not_live s p hl]; exact Or.inl ⟨rfl, rfl⟩
+  · have hi : s.inited = true := by cases h' : s.inited <;> simp_all
+    have hd : s.doneClosed = false := by cases h' : s.doneClosed <;> simp_all
+    rw [inbound_app_eq s p hi hd hp]
+    cases hn : needsAck s p
+    · exact Or.inl ⟨by simp, by simp⟩
+    · cases hw : canWrite s
+      · exact Or.inr ⟨hi, hd, by simp [ackFails, hn, hw], by simp, by simp⟩
+      · exact Or.inl ⟨by simp, by simp⟩
 
 /-- a SUBACK whose number of return codes differs from the number of filters requested -/
 def subAckMismatch (s : St) : In → Bool
@@ -2080,6 +2317,9 @@ theorem inbound_other_calls (s : St) (p : In) (i j : Nat) (ht : target s p = som
   | inbIgnored p h => rfl
   | malformed hi hd => simp [target] at ht
   | noTarget p hi hd hp ht' => rfl
+  | appNoop p hi hd hp hn => rfl
+  | appOk p hi hd hn hw => rfl
+  | appFail p hi hd hn hw => rw [target_of_isApp s (needsAck_isApp hn)] at ht; cases ht
   | stale p i' hi hd ht' hst => simp
   | connackRefused sp code i' c hi hd hm' hc hp h0 =>
     have : i' = i := by simpa [target, hm'] using ht
@@ -2122,6 +2362,8 @@ def endsConn (s : St) : Ev → Bool
   | .localClose => s.inited
   | .inb .malformed => s.inited
   | .inb (.suback id codes) => s.inited && subAckMismatch s (.suback id codes)
+  | .inb (.publish q id) => s.inited && ackFails s (.publish q id)
+  | .inb (.pubrel id) => s.inited && ackFails s (.pubrel id)
   | .call .disconnect _ => s.inited && canWrite s
   | _ => false
 
@@ -2154,9 +2396,15 @@ theorem done_step {s s' : St} {e : Ev} (h : Step s e s') : s'.doneClosed = (s.do
     · cases p <;> simp [endsConn, h]
   | malformed hi hd => simp [endsConn, hi]
   | noTarget p hi hd hp ht =>
-    cases p <;> simp [endsConn, hi] <;> first | contradiction | skip
+    cases p <;> simp [endsConn, hi, hd] <;> first | (simp [isAck] at hp; done) | skip
     simp [target] at ht
     simp [subAckMismatch, ht]
+  | appNoop p hi hd hp hn =>
+    cases p <;> first | (simp [isApp] at hp; done) | simp [endsConn, hd, ackFails, hn]
+  | appOk p hi hd hn hw =>
+    cases p <;> first | (simp [needsAck] at hn; done) | simp [endsConn, hd, ackFails, hw]
+  | appFail p hi hd hn hw =>
+    cases p <;> first | (simp [needsAck] at hn; done) | simp [endsConn, hi, ackFails, hn, hw]
   | stale p j hi hd ht hst =>
     cases p <;> simp [endsConn, hi, hd] <;> first | (simp [target] at ht; done) | skip
     rename_i id codes
@@ -2365,7 +2613,181 @@ theorem state_disconnected_step {s s' : St} {e : Ev} (h : Step s e s') :
     · intro h1; exact Or.inl h1
     · rintro (h1 | ⟨id, h1⟩)
       · exact h1
-      · rcases he with ⟨he, _⟩ | ⟨he, _⟩ | ⟨he, _⟩ | ⟨_, _, _, _, _, he, _⟩ <;> (rw [he] at h1; cases h1)
+      · rcases he with ⟨he, _⟩ | ⟨he, _⟩ | ⟨he, _⟩ | ⟨_, _, _, _, _, he, _⟩ | ⟨_, he, _⟩ <;> (rw [he] at h1; cases h1)
 
+
+/-! ## §7 inbound application messages: what is written, what is remembered -/
+
+/-- the packets that acknowledge inbound application messages -/
+def isInAckW : W → Bool
+  | .puback _ | .pubrec _ | .pubcomp _ => true
+  | _ => false
+
+/-- What a step writes, and what it does to the remembered inbound QoS 2 ids (`inQ2`):
+    either it writes no acknowledgement of an application message and leaves `inQ2` alone; or it is an inbound
+    PUBLISH (QoS ≠ 0) / remembered PUBREL on a live reader that is acknowledged (`appWrites`, `appQ2`); or that
+    acknowledgement cannot be written (nothing is written; a PUBREL has already forgotten its id). -/
+theorem app_step {s s' : St} {e : Ev} (h : Step s e s') :
+    (∃ l, s'.writes = s.writes ++ l ∧ (∀ w ∈ l, isInAckW w = false) ∧ s'.inQ2 = s.inQ2) ∨
+    (∃ p, e = .inb p ∧ s.inited = true ∧ s.doneClosed = false ∧ needsAck s p = true ∧ canWrite s = true ∧
+      s'.writes = s.writes ++ appWrites p ∧ s'.inQ2 = appQ2 s p) ∨
+    (∃ p, e = .inb p ∧ s.inited = true ∧ s.doneClosed = false ∧ needsAck s p = true ∧ canWrite s = false ∧
+      s'.writes = s.writes ∧ s'.inQ2 = (appDropped s p).inQ2) := by
+  cases h with
+  | reqOk k id hk hi hw =>
+    exact Or.inl ⟨[reqW k id], by simp, by cases k <;> simp [reqW, isInAckW], by simp⟩
+  | discOk id hw hi => exact Or.inl ⟨[.disconnect], by simp [discd], by simp [isInAckW], by simp [discd]⟩
+  | discEnd id hw hi hd => exact Or.inl ⟨[.disconnect], by simp [discd], by simp [isInAckW], by simp [discd]⟩
+  | pubrecOk id i c hi hd hm hc hp hw => exact Or.inl ⟨[.pubrel id], rfl, by simp [isInAckW], rfl⟩
+  | appOk p hi hd hn hw => exact Or.inr (Or.inl ⟨p, rfl, hi, hd, hn, hw, rfl, rfl⟩)
+  | appFail p hi hd hn hw => exact Or.inr (Or.inr ⟨p, rfl, hi, hd, hn, hw, by simp, by simp⟩)
+  | _ => exact Or.inl ⟨[], by simp, by simp, by simp⟩
+
+theorem nodup_filter_ne {l : List Nat} (h : l.Nodup) (id : Nat) : (l.filter (· ≠ id)).Nodup :=
+  List.Nodup.sublist List.filter_sublist h
+
+theorem nodup_appQ2 {s : St} (h : s.inQ2.Nodup) (p : In) : (appQ2 s p).Nodup := by
+  cases p <;> simp only [appQ2] <;> first | exact h | skip
+  · split
+    · exact h
+    · exact List.nodup_cons.2 ⟨by simp, nodup_filter_ne h _⟩
+  · exact nodup_filter_ne h _
+
+theorem nodup_appDropped {s : St} (h : s.inQ2.Nodup) (p : In) : (appDropped s p).inQ2.Nodup := by
+  cases p <;> simp only [appDropped] <;> first | exact h | exact nodup_filter_ne h _
+
+/-- an id is remembered at most once -/
+theorem inQ2_nodup_step {s s' : St} {e : Ev} (h : Step s e s') (hn : s.inQ2.Nodup) : s'.inQ2.Nodup := by
+  rcases app_step h with ⟨l, _, _, h3⟩ | ⟨p, _, _, _, _, _, _, h3⟩ | ⟨p, _, _, _, _, _, _, h3⟩
+  · rw [h3]; exact hn
+  · rw [h3]; exact nodup_appQ2 hn p
+  · rw [h3]; exact nodup_appDropped hn p
+
+/-- PUBCOMPs written for `id`, plus one if `id` is still remembered, never exceed the PUBRECs written for `id` -/
+def Q2Inv (s : St) : Prop :=
+  ∀ id, s.writes.count (.pubcomp id) + (if id ∈ s.inQ2 then 1 else 0) ≤ s.writes.count (.pubrec id)
+
+theorem count_append_noAck {l : List W} (h : ∀ w ∈ l, isInAckW w = false) (ws : List W) (w : W)
+    (hw : isInAckW w = true) : (ws ++ l).count w = ws.count w := by
+  rw [List.count_append]
+  have : l.count w = 0 := List.count_eq_zero.2 (fun hm => by rw [h w hm] at hw; cases hw)
+  omega
+
+theorem mem_filter_ne_other {l : List Nat} {x y : Nat} (h : y ≠ x) : x ∈ l.filter (· ≠ y) ↔ x ∈ l := by
+  simp only [List.mem_filter, decide_eq_true_eq]
+  exact ⟨fun h' => h'.1, fun h' => ⟨h', fun he => h he.symm⟩⟩
+
+theorem q2inv_publish (ws : List W) (l : List Nat) (q y x : Nat)
+    (h0 : ws.count (.pubcomp x) + (if x ∈ l then 1 else 0) ≤ ws.count (.pubrec x)) :
+    (ws ++ appWrites (.publish q y)).count (.pubcomp x) +
+        (if x ∈ (if q = 1 then l else y :: l.filter (· ≠ y)) then 1 else 0) ≤
+      (ws ++ appWrites (.publish q y)).count (.pubrec x) := by
+  simp only [appWrites]
+  by_cases h1 : q = 1
+  · simp only [h1, if_true, List.count_append]
+    simpa using h0
+  · simp only [h1, if_false, List.count_append, List.count_singleton]
+    by_cases hid : y = x
+    · subst hid
+      simp only [List.mem_cons, true_or, if_true, beq_self_eq_true]
+      have : (W.pubrec y == W.pubcomp y) = false := by simp
+      rw [this]
+      split at h0 <;> simp <;> omega
+    · have hm : (x ∈ y :: l.filter (· ≠ y)) ↔ x ∈ l := by
+        rw [List.mem_cons, mem_filter_ne_other hid]
+        exact ⟨fun h => h.elim (fun he => absurd he.symm hid) (fun h => h), Or.inr⟩
+      simp only [hm]
+      have e1 : (W.pubrec y == W.pubrec x) = false := by simp [hid]
+      have e2 : (W.pubrec y == W.pubcomp x) = false := by simp
+      rw [e1, e2]
+      simpa using h0
+
+theorem q2inv_pubrel (ws : List W) (l : List Nat) (y x : Nat) (hy : y ∈ l)
+    (h0 : ws.count (.pubcomp x) + (if x ∈ l then 1 else 0) ≤ ws.count (.pubrec x)) :
+    (ws ++ appWrites (.pubrel y)).count (.pubcomp x) + (if x ∈ l.filter (· ≠ y) then 1 else 0) ≤
+      (ws ++ appWrites (.pubrel y)).count (.pubrec x) := by
+  simp only [appWrites, List.count_append, List.count_singleton]
+  have e2 : (W.pubcomp y == W.pubrec x) = false := by simp
+  rw [e2]
+  by_cases hid : y = x
+  · subst hid
+    simp only [hy, if_true] at h0
+    have : ¬ y ∈ l.filter (· ≠ y) := by simp [List.mem_filter]
+    simp only [this, if_false, beq_self_eq_true, if_true]
+    omega
+  · simp only [mem_filter_ne_other hid]
+    have e1 : (W.pubcomp y == W.pubcomp x) = false := by simp [hid]
+    rw [e1]
+    simpa using h0
+
+theorem Q2Inv.onStep {s s' : St} {e : Ev} (h : Step s e s') (hs : Q2Inv s) : Q2Inv s' := by
+  intro x
+  have h0 := hs x
+  rcases app_step h with ⟨l, h1, h2, h3⟩ | ⟨p, _, _, _, hn, _, h1, h3⟩ | ⟨p, _, _, _, hn, _, h1, h3⟩
+  · rw [h1, h3, count_append_noAck h2 _ _ rfl, count_append_noAck h2 _ _ rfl]; exact h0
+  · rw [h1, h3]
+    cases p with
+    | publish q y => exact q2inv_publish s.writes s.inQ2 q y x h0
+    | pubrel y =>
+      simp only [needsAck, List.contains_iff_mem] at hn
+      exact q2inv_pubrel s.writes s.inQ2 y x hn h0
+    | _ => simp [needsAck] at hn
+  · rw [h1]
+    have hsub : x ∈ (appDropped s p).inQ2 → x ∈ s.inQ2 := by
+      cases p with
+      | pubrel y => intro h; exact (List.mem_filter.1 h).1
+      | _ => exact fun h => h
+    rw [h3]
+    split
+    · next hm => rw [if_pos (hsub hm)] at h0; exact h0
+    · split at h0 <;> omega
+
+theorem Q2Inv.init : Q2Inv {} := by intro id; simp
+
+/-- an inbound PUBLISH with id `x` that the reader treats as QoS 2 (any QoS other than 0 and 1; a well-formed
+    packet has QoS ∈ {0,1,2}) -/
+def isQ2Pub (x : Nat) : Ev → Bool
+  | .inb (.publish q y) => q != 0 && q != 1 && y == x
+  | _ => false
+
+/-- an inbound PUBREL with id `x` -/
+def isPubrelEv (x : Nat) : Ev → Bool
+  | .inb (.pubrel y) => y == x
+  | _ => false
+
+/-- a PUBREC with id `x` is written only by a step that is an inbound QoS 2 PUBLISH with id `x` -/
+theorem pubrec_count_step {s s' : St} {e : Ev} (h : Step s e s') (x : Nat) :
+    s'.writes.count (.pubrec x) ≤ s.writes.count (.pubrec x) + (if isQ2Pub x e = true then 1 else 0) := by
+  rcases app_step h with ⟨l, h1, h2, _⟩ | ⟨p, he, _, _, hn, _, h1, _⟩ | ⟨p, _, _, _, _, _, h1, _⟩
+  · rw [h1, count_append_noAck h2 _ _ rfl]; omega
+  · rw [h1, he, List.count_append]
+    cases p with
+    | publish q y =>
+      simp only [needsAck, bne_iff_ne, ne_eq] at hn
+      simp only [appWrites, isQ2Pub]
+      by_cases h1 : q = 1
+      · simp [h1]
+      · by_cases hy : y = x
+        · simp [h1, hn, hy]
+        · simp [h1, hy]
+    | pubrel y => simp [appWrites]
+    | _ => simp [needsAck] at hn
+  · rw [h1]; omega
+
+/-- a PUBCOMP with id `x` is written only by a step that is an inbound PUBREL with id `x` -/
+theorem pubcomp_count_step {s s' : St} {e : Ev} (h : Step s e s') (x : Nat) :
+    s'.writes.count (.pubcomp x) ≤ s.writes.count (.pubcomp x) + (if isPubrelEv x e = true then 1 else 0) := by
+  rcases app_step h with ⟨l, h1, h2, _⟩ | ⟨p, he, _, _, hn, _, h1, _⟩ | ⟨p, _, _, _, _, _, h1, _⟩
+  · rw [h1, count_append_noAck h2 _ _ rfl]; omega
+  · rw [h1, he, List.count_append]
+    cases p with
+    | publish q y =>
+      simp only [appWrites]
+      split <;> simp
+    | pubrel y =>
+      simp only [appWrites, isPubrelEv]
+      by_cases hy : y = x <;> simp [hy]
+    | _ => simp [needsAck] at hn
+  · rw [h1]; omega
 
 end Mqtt.BC
